@@ -1,6 +1,10 @@
 """C18 - parameter extraction returns exactly the requested table's rows and columns."""
+import contextlib
 import csv
 import io
+import json
+import os
+import tempfile
 
 from .. import gen
 from ..ref import blocking as refb
@@ -181,7 +185,7 @@ def judge(ctx, case):
                     for r in x['rows'] if r['table'] == table]
             if any(r.get('cut') for r in x['rows'] if r['table'] == table):
                 ctx.count('requests including a row that ends part-way through its columns')
-            route = 'class' if rng.random() < 0.6 else 'csv_tool'
+            route = rng.choice(('class', 'class', 'csv_tool', 'csv_cli'))
             ctx.seen('routes', route)
             ctx.seen('representations', 'expanded' if expanded else 'compressed')
             ctx.seen('tables', table if table in ctx.packaged_tables else 'generated')
@@ -193,6 +197,25 @@ def judge(ctx, case):
                 kind, got = ctx.call(lambda: list(m.IpmParamReader(io.BytesIO(data), table, encoding=enc, param_config=x['tables'],
                                                                   blocked=blocked, expanded=expanded)), budget=6000000)
                 ctx.count('IpmParamReader runs')
+            elif route == 'csv_cli':
+                # the command the way the console script runs it: its own argument parser, real files, a configuration file
+                if not getattr(ctx, 'tmpdir', None):
+                    ctx.tmpdir = tempfile.mkdtemp(prefix='vmon-c18-')
+                paths = [os.path.join(ctx.tmpdir, nm) for nm in ('in.bin', 'out.csv', 'cardutil.json')]
+                with open(paths[0], 'wb') as f:
+                    f.write(data)
+                with open(paths[2], 'w') as f:
+                    json.dump({'mci_parameter_tables': x['tables']}, f)
+                argv = [paths[0], table, '-o', paths[1], '--in-encoding', enc, '--out-encoding', 'utf8', '--config-file', paths[2]]
+                argv += ([] if blocked else ['--no1014blocking']) + (['--expanded'] if expanded else [])
+
+                def cli():
+                    with contextlib.redirect_stdout(io.StringIO()):
+                        ctx.tool.cli_run(**vars(ctx.tool.cli_parser().parse_args(argv)))
+                    with open(paths[1], newline='', encoding='utf8') as f:
+                        return list(csv.DictReader(f))
+                kind, got = ctx.call(cli, budget=6000000)
+                ctx.count('CSV command runs through its argument parser')
             else:
                 out = io.StringIO()
 
@@ -206,7 +229,7 @@ def judge(ctx, case):
                 ctx.violation('extract:%s:%s' % (route, 'step_budget' if kind == 'steps' else 'exception:' + type(got).__name__),
                               {'case': narrowed, 'error': repr(got)[:200]})
                 return
-            if route == 'csv_tool':
+            if route in ('csv_tool', 'csv_cli'):
                 # csv.DictReader gives '' for empty cells and cannot tell '\r' etc.; values here never contain line breaks
                 got = [dict(r) for r in got]
             if got != want:
@@ -247,8 +270,8 @@ def canaries(ctx):
 
 def require(m):
     reasons = []
-    if set(m['classes'].get('routes', ())) != {'class', 'csv_tool'}:
-        reasons.append('both routes not driven')
+    if set(m['classes'].get('routes', ())) != {'class', 'csv_tool', 'csv_cli'}:
+        reasons.append('class, function and command routes not all driven')
     if set(m['classes'].get('representations', ())) != {'compressed', 'expanded'}:
         reasons.append('both representations not driven')
     t = set(m['classes'].get('tables', ()))
